@@ -242,9 +242,20 @@ where
 {
     fn parse(input: ParseStream) -> syn::Result<Self> {
         let mut attrs = ParseableAttributes::default();
+        let mut seen_attrs: Vec<String> = Vec::new();
 
         while !input.is_empty() {
             let ident: Ident = input.parse()?;
+
+            // Every attribute may be specified only once: a later `sanitize(..)`, `validate(..)`,
+            // `derive(..)` or `default = ..` would otherwise silently replace the earlier one.
+            let attr_name = ident.to_string();
+            if seen_attrs.contains(&attr_name) {
+                let msg = format!("Attribute `{ident}` is specified more than once.");
+                return Err(syn::Error::new(ident.span(), msg));
+            }
+            seen_attrs.push(attr_name);
+
             if ident == "sanitize" {
                 if input.peek(Paren) {
                     let content;
